@@ -361,8 +361,10 @@ func RunComposition(name string, seed int64, senders, perSender int, f8 bool) Co
 		return eventlogger.NodeID(id)
 	}
 	jf := reg("json", &eventlogger.JSONFormatter{})
-	jff := reg("jsonff", &eventlogger.JSONFormatterFilter{Predicate: func(interface{}) (bool, error) { return true, nil }})
-	flt := reg("filter", &eventlogger.Filter{Predicate: func(e *eventlogger.Event) (bool, error) { return true, nil }})
+	// the filtering nodes turn down part of the events: a pipeline that drops an event leaves it alone for the others
+	var jffN, fltN atomic.Int64
+	jff := reg("jsonff", &eventlogger.JSONFormatterFilter{Predicate: func(interface{}) (bool, error) { return jffN.Add(1)%3 != 0, nil }})
+	flt := reg("filter", &eventlogger.Filter{Predicate: func(e *eventlogger.Event) (bool, error) { return fltN.Add(1)%7 != 0, nil }})
 	src, _ := url.Parse("https://verif.example/src")
 	ce := &cloudevents.FormatterFilter{Source: src, Signer: func(_ context.Context, b []byte) (string, error) { return "sig0", nil }, SignEventTypes: []string{"t"}}
 	cef := reg("ce", ce)
